@@ -29,25 +29,36 @@ def noiseRun : List Step → γ → R → R
 
 /-- `blindrot_invariant` (loop invariant, by induction over the schedule): if the accumulator decrypts to
     `φ_t(F)·X^u + n`, then after the operations `st` it decrypts to `φ_{t'}(F)·X^{u'} + n'` with `(t', u')` the
-    exponents `runZ` computes and `n'` the accumulated noise. -/
-theorem blindrot_phase
+    exponents `runZ` computes and `n'` the accumulated noise.
+
+    The hypotheses on the automorphisms are required only on a multiplicatively closed set `U` of indices that
+    contains the Galois elements of the schedule and the initial index `t` (in `Z_q[X]/(X^N+1)`, `m = 2N`: the odd
+    residues).  Quantifying them over ALL `g : ZMod m` would make the statement vacuous for the ring the code
+    works in: for `g = 2`, `φ_2(X^N) = φ_2(−1) = −1` but `φ_2(X^N) = X^{2N} = 1`
+    (`Props/C20Ring.blindrot_hyps_unsatisfiable`). -/
+theorem blindrot_phase (U : ZMod m → Prop) (hU : ∀ g t, U g → U t → U (g * t))
     (hmono : ∀ u v, mono (u + v) = mono u * mono v)
-    (hφadd : ∀ g x y, φ g (x + y) = φ g x + φ g y) (hφmul : ∀ g x y, φ g (x * y) = φ g x * φ g y)
-    (hφφ : ∀ g t x, φ g (φ t x) = φ (g * t) x) (hφmono : ∀ g u, φ g (mono u) = mono (g * u))
-    (F : R) : ∀ (st : List Step) (x : γ) (t u : ZMod m) (n : R),
-      ph x = φ t F * mono u + n →
+    (hφadd : ∀ g, U g → ∀ x y, φ g (x + y) = φ g x + φ g y)
+    (hφmul : ∀ g, U g → ∀ x y, φ g (x * y) = φ g x * φ g y)
+    (hφφ : ∀ g t, U g → U t → ∀ x, φ g (φ t x) = φ (g * t) x)
+    (hφmono : ∀ g, U g → ∀ u, φ g (mono u) = mono (g * u))
+    (F : R) : ∀ (st : List Step) (_ : ∀ g, Step.aut g ∈ st → U (g : ZMod m)) (x : γ) (t u : ZMod m) (_ : U t)
+      (n : R), ph x = φ t F * mono u + n →
       ph (runSteps autOp mulOp st x) =
         φ (runZ s st (t, u)).1 F * mono (runZ s st (t, u)).2 + noiseRun mono φ ph autOp mulOp s st x n
-  | [], x, t, u, n, h => by simpa [runSteps, runZ, noiseRun] using h
-  | Step.aut g :: rest, x, t, u, n, h => by
+  | [], _, x, t, u, _, n, h => by simpa [runSteps, runZ, noiseRun] using h
+  | Step.aut g :: rest, hst, x, t, u, ht, n, h => by
+      have hg : U (g : ZMod m) := hst g (by simp)
       simp only [runSteps, runZ, noiseRun]
-      apply blindrot_phase hmono hφadd hφmul hφφ hφmono F rest
+      apply blindrot_phase U hU hmono hφadd hφmul hφφ hφmono F rest
+        (fun g' hg' => hst g' (List.mem_cons_of_mem _ hg')) _ _ _ (hU _ _ hg ht)
       have : ph (autOp g x) = φ (g : ZMod m) (ph x) + errAut φ ph autOp g x := by
         simp only [errAut]; ring
-      rw [this, h, hφadd, hφmul, hφφ, hφmono]; ring
-  | Step.mul j :: rest, x, t, u, n, h => by
+      rw [this, h, hφadd _ hg, hφmul _ hg, hφφ _ _ hg ht, hφmono _ hg]; ring
+  | Step.mul j :: rest, hst, x, t, u, ht, n, h => by
       simp only [runSteps, runZ, noiseRun]
-      apply blindrot_phase hmono hφadd hφmul hφφ hφmono F rest
+      apply blindrot_phase U hU hmono hφadd hφmul hφφ hφmono F rest
+        (fun g' hg' => hst g' (List.mem_cons_of_mem _ hg')) _ _ _ ht
       have : ph (mulOp j x) = ph x * mono (s j) + errMul mono ph mulOp s j x := by
         simp only [errMul]; ring
       rw [this, h, hmono]; ring
